@@ -350,7 +350,8 @@ func (c *Core) ngSetup(p *ngap.PDU) {
 	}
 	c.SetupDone = true
 	a := c.S.AMF
-	guami := ngap.GUAMI{PLMN: c.PLMN, Region: byte(a.Region), SetID: uint16(a.SetID), Pointer: byte(a.Pointer)}
+	gp, _, _ := c.guamiPLMN()
+	guami := ngap.GUAMI{PLMN: gp, Region: byte(a.Region), SetID: uint16(a.SetID), Pointer: byte(a.Pointer)}
 	slices := []ngap.SNSSAI{c.cfgSNSSAI()}
 	for i := 1; i < a.NSlices; i++ {
 		slices = append(slices, ngap.SNSSAI{SST: byte(i + 1)})
@@ -370,6 +371,9 @@ func (c *Core) ngSetup(p *ngap.PDU) {
 	}
 	other(a.PLMNsBefore)
 	guamis = append(guamis, ngap.ServedGUAMI{GUAMI: guami, Backup: a.Backup})
+	if !bytes.Equal(gp, c.PLMN) {
+		plmns = append(plmns, ngap.PLMNSupport{PLMN: gp, Slices: []ngap.SNSSAI{{SST: 1}}})
+	}
 	plmns = append(plmns, ngap.PLMNSupport{PLMN: c.PLMN, Slices: slices})
 	other(a.PLMNsAfter)
 	resp := &ngap.PDU{Kind: ngap.Successful, Proc: ngap.ProcNGSetup, Crit: ngap.Reject, IEs: []ngap.IE{
@@ -594,6 +598,15 @@ func selectAlg(bits byte) byte {
 		}
 	}
 	return 0
+}
+
+// guamiPLMN is the PLMN of the AMF's GUAMI: the serving PLMN, unless the scenario's AMF is a shared
+// one with a GUAMI of its own.
+func (c *Core) guamiPLMN() ([]byte, string, string) {
+	if g := c.S.AMF.GUAMIPLMN; len(g) >= 5 {
+		return nas.EncodePLMN(g[:3], g[3:]), g[:3], g[3:]
+	}
+	return c.PLMN, c.servMCC, c.servMNC
 }
 
 // credsOf returns K and OPc of the ord-th subscriber: its own when the scenario lists credentials
@@ -936,7 +949,8 @@ func (c *Core) smcComplete(ue *UE, env nas.Envelope) {
 	a := c.S.AMF
 	var ro nas.RegAcceptOptions
 	tm := mustHex(ue.P.TMSI, 4, "tmsi")
-	g := &nas.GUTI{MCC: c.servMCC, MNC: c.servMNC, Region: byte(a.Region), SetID: uint16(a.SetID), Pointer: byte(a.Pointer)}
+	_, gm, gn := c.guamiPLMN()
+	g := &nas.GUTI{MCC: gm, MNC: gn, Region: byte(a.Region), SetID: uint16(a.SetID), Pointer: byte(a.Pointer)}
 	copy(g.TMSI[:], tm)
 	if ue.P.RegAccOpt&1 == 0 {
 		ro.GUTI = g
@@ -968,7 +982,8 @@ func (c *Core) smcComplete(ue *UE, env nas.Envelope) {
 	if ue.P.ICSOpt&1 != 0 {
 		ies = append(ies, ngap.IE{ngap.IDOldAMF, ngap.Reject, must(ngap.EncPrintable("old-" + a.Name))})
 	}
-	guami := ngap.GUAMI{PLMN: c.PLMN, Region: byte(a.Region), SetID: uint16(a.SetID), Pointer: byte(a.Pointer)}
+	gp, _, _ := c.guamiPLMN()
+	guami := ngap.GUAMI{PLMN: gp, Region: byte(a.Region), SetID: uint16(a.SetID), Pointer: byte(a.Pointer)}
 	ies = append(ies, ngap.IE{ngap.IDGUAMI, ngap.Reject, must(ngap.EncGUAMI(guami))})
 	ies = append(ies, ngap.IE{ngap.IDAllowedNSSAI, ngap.Reject, must(ngap.EncAllowedNSSAI([]ngap.SNSSAI{c.cfgSNSSAI()}))})
 	ea, ia := ue.SecCap[0], ue.SecCap[1]
@@ -1103,7 +1118,8 @@ func (c *Core) protectedUplink(ue *UE, env nas.Envelope) {
 			ind = &v
 		}
 		if ue.P.CUCOpt&2 != 0 {
-			g = &nas.GUTI{MCC: c.servMCC, MNC: c.servMNC, Region: byte(a.Region), SetID: uint16(a.SetID), Pointer: byte(a.Pointer)}
+			_, gm, gn := c.guamiPLMN()
+			g = &nas.GUTI{MCC: gm, MNC: gn, Region: byte(a.Region), SetID: uint16(a.SetID), Pointer: byte(a.Pointer)}
 			copy(g.TMSI[:], mustHex(ue.P.TMSI, 4, "tmsi"))
 		}
 		msg := c.protectDL(ue, 2, nas.ConfigurationUpdateCommand(ind, g))
@@ -1365,7 +1381,11 @@ func BuildTransfer(p scn.UEParams) []byte {
 	if fq == 0 {
 		fq = 9
 	}
-	ies = append(ies, ngap.IE{ngap.IDQosFlowSetupRequestList, ngap.Reject, must(ngap.EncQosFlowSetupRequestList([]ngap.QosFlow{{QFI: 1, FiveQI: fq, ARPPriority: 8}}))})
+	flows := []ngap.QosFlow{{QFI: 1, FiveQI: fq, ARPPriority: 8}}
+	for i := 1; i < p.NFlows && i < 64; i++ {
+		flows = append(flows, ngap.QosFlow{QFI: (1 + i) % 64, FiveQI: 1 + (fq+i)%254, ARPPriority: 1 + i%15, PriorityLevel: i % 3 * 40})
+	}
+	ies = append(ies, ngap.IE{ngap.IDQosFlowSetupRequestList, ngap.Reject, must(ngap.EncQosFlowSetupRequestList(flows))})
 	return must(ngap.EncodeContainer(ies))
 }
 
@@ -1572,7 +1592,8 @@ func (c *Core) serviceRequest(ranID int64, env nas.Envelope, tmsiIE *ngap.FiveGS
 	if ue.SvcWithPDU {
 		ies = append(ies, ngap.IE{ngap.IDUEAggregateMaximumBitRate, ngap.Reject, must(ngap.EncAMBR(ue.P.AMBRDL, ue.P.AMBRUL))})
 	}
-	guami := ngap.GUAMI{PLMN: c.PLMN, Region: byte(a.Region), SetID: uint16(a.SetID), Pointer: byte(a.Pointer)}
+	gp, _, _ := c.guamiPLMN()
+	guami := ngap.GUAMI{PLMN: gp, Region: byte(a.Region), SetID: uint16(a.SetID), Pointer: byte(a.Pointer)}
 	ies = append(ies, ngap.IE{ngap.IDGUAMI, ngap.Reject, must(ngap.EncGUAMI(guami))})
 	if ue.SvcWithPDU {
 		ies = append(ies, ngap.IE{ngap.IDPDUSessionResourceSetupListCxtReq, ngap.Reject, must(ngap.EncSetupItemList([]ngap.SetupItem{c.setupItem(ue, false)}))})
